@@ -47,7 +47,7 @@ template<class F> void systematic(long w, long W, F&& f) {
 		G al = cplx ? G{1, -2} : G{1, 0}, be = cplx ? G{-2, 1} : G{-2, 0};
 		// gemm
 		for(int va = 0; va < nv; ++va) for(int vb = 0; vb < nv; ++vb) for(int vc = 0; vc < nv; ++vc) for(int pads = 0; pads < 8; ++pads)
-			for(long m = 0; m < 4; ++m) for(long n = 0; n < 4; ++n) for(long k = 0; k < 4; ++k) {
+			for(long m = 0; m < 5; ++m) for(long n = 0; n < 5; ++n) for(long k = 0; k < 5; ++k) {
 				if(!mine()) continue;
 				Case c; c.op = "gemm"; c.form = "inplace"; c.ty = ty; c.dseed = 1000 + static_cast<std::uint64_t>(idx); c.alpha = al; c.beta = be;
 				MatSpec a{m, k, VAR4[va], (pads & 1) ? 2 : 0}, b{k, n, VAR4[vb], (pads & 2) ? 1 : 0}, cc{m, n, VAR4[vc], (pads & 4) ? 3 : 0};
@@ -56,9 +56,17 @@ template<class F> void systematic(long w, long W, F&& f) {
 				c.m = {make_mat(0, a), make_mat(1, b), make_mat(2, cc)};
 				if(!f(c)) return;
 			}
+		// gemm range / operator forms with an inner dimension that does not fit (they assert nothing about it)
+		if(ND == 0) for(char const* form : {"assign", "pluseq", "opmul", "opmulpe"}) for(int vb = 0; vb < 2; ++vb) {
+			if(!mine()) continue;
+			Case c; c.op = "gemm"; c.form = form; c.ty = ty; c.dseed = 1000 + static_cast<std::uint64_t>(idx); c.alpha = {1, 0}; c.beta = (c.form == "assign" || c.form == "opmul") ? G{0, 0} : G{1, 0};
+			MatSpec a{2, 2, 'N', 0}, b{3, 2, VAR4[vb], 0}, cc{2, 2, 'N', 0};
+			c.m = {make_mat(0, a), make_mat(1, b), make_mat(2, cc)};
+			if(!f(c)) return;
+		}
 		// gemv
 		for(int va = 0; va < nv; ++va) for(int pad = 0; pad < 2; ++pad) for(long ix = 1; ix <= 2; ++ix) for(long iy = 1; iy <= 2; ++iy)
-			for(long m = 0; m < 4; ++m) for(long n = 0; n < 4; ++n) {
+			for(long m = 0; m < 5; ++m) for(long n = 0; n < 5; ++n) {
 				if(!mine()) continue;
 				Case c; c.op = "gemv"; c.form = "inplace"; c.ty = ty; c.dseed = 1000 + static_cast<std::uint64_t>(idx); c.alpha = al; c.beta = be;
 				MatSpec a{m, n, VAR4[va], pad ? 2 : 0}; if(pad) { a.r0 = 1; a.c0 = 1; }
@@ -68,21 +76,25 @@ template<class F> void systematic(long w, long W, F&& f) {
 		// herk (complex: zherk, real: forwarded to syrk by the library) and syrk
 		for(char const* op : {"herk", "syrk"}) {
 			int na = (std::string(op) == "herk") ? nv : 2, nc = na;
-			for(int va = 0; va < na; ++va) for(int vc = 0; vc < nc; ++vc) for(int pads = 0; pads < 4; ++pads) for(char fill : {'u', 'l'})
-				for(long n = 0; n < 4; ++n) for(long k = 0; k < 4; ++k) {
+			// nonunit = 1 / 2: A / C gets an inner stride of 2 (BLAS cannot express it; herk and syrk check no stride at all)
+			for(int va = 0; va < na; ++va) for(int vc = 0; vc < nc; ++vc) for(int pads = 0; pads < 4; ++pads) for(char fill : {'u', 'l'}) for(int nonunit = 0; nonunit < 3; ++nonunit)
+				for(long n = 0; n < 5; ++n) for(long k = 0; k < 5; ++k) {
+					if(nonunit && (n == 0 || pads == 3)) continue;
 					if(!mine()) continue;
 					Case c; c.op = op; c.form = "inplace"; c.ty = ty; c.dseed = 1000 + static_cast<std::uint64_t>(idx); c.f1 = fill;
 					c.alpha = (c.op == "herk") ? G{1, 0} : al; c.beta = (c.op == "herk") ? G{-2, 0} : be;
 					MatSpec a{n, k, VAR4[va], (pads & 1) ? 2 : 0}, cc{n, n, VAR4[vc], (pads & 2) ? 3 : 0};
 					if(pads & 1) { a.r0 = 1; a.c0 = 1; }
 					if(pads & 2) { cc.c0 = 1; cc.off = 2; }
+					if(nonunit == 1) a.cs = 2;
+					if(nonunit == 2) cc.cs = 2;
 					c.m = {make_mat(0, a), make_mat(2, cc)};
 					if(!f(c)) return;
 				}
 		}
 		// trsm
 		for(int va = 0; va < nv; ++va) for(int vb = 0; vb < nv; ++vb) for(int pads = 0; pads < 4; ++pads) for(char side : {'l', 'r'}) for(char fill : {'u', 'l'}) for(char diag : {'n', 'u'})
-			for(long m = 0; m < 4; ++m) for(long n = 0; n < 4; ++n) {
+			for(long m = 0; m < 5; ++m) for(long n = 0; n < 5; ++n) {
 				if(va >= 2 && vb >= 2) continue;   // both conjugated does not compile
 				if(!mine()) continue;
 				Case c; c.op = "trsm"; c.form = "inplace"; c.ty = ty; c.dseed = 1000 + static_cast<std::uint64_t>(idx); c.f1 = side; c.f2 = fill; c.f3 = diag;
@@ -162,7 +174,7 @@ static void random_case(Rng& r, Case& c) {
 		case 2: case 3: {
 			c.op = (op == 2) ? "herk" : "syrk"; long n = rsize(r), k = rsize(r);
 			c.form = "inplace"; c.f1 = r.coin(50) ? 'u' : 'l';
-			MatSpec a = rmat(r, n, k, cplx, false), cc = rmat(r, bad ? n + 1 : n, n, cplx, false);
+			MatSpec a = rmat(r, n, k, cplx, ND == 0 || true), cc = rmat(r, bad ? n + 1 : n, n, cplx, ND == 0 || true);   // syrk/herk check no stride at all: non-unit strides in both builds
 			if(c.op == "syrk") { if(a.var == 'J') a.var = 'N'; if(a.var == 'H') a.var = 'T'; if(cc.var == 'J') cc.var = 'N'; if(cc.var == 'H') cc.var = 'T'; }
 			if(c.op == "herk") { c.alpha.im = 0; c.beta.im = 0; if(r.coin(15)) { c.form = "both"; c.f1 = 'b'; c.beta = {0, 0}; } }
 			c.m = {make_mat(0, a), make_mat(2, cc)};
@@ -202,6 +214,7 @@ static void run_generated(std::uint64_t seed, long nprog, std::string const& mod
 	g_limit = nprog; g_k = 0; g_pseed = seed;
 	long const W = 16; long w = static_cast<long>(seed % 1000) % W;
 	if(mode != "random") systematic(w, W, [&](Case& c) { return emit_case(c); });
+	if(mode == "systematic") return;
 	Rng rng(seed);
 	while(g_k < g_limit) { Case c; random_case(rng, c); if(!emit_case(c)) break; }
 }
